@@ -36,6 +36,10 @@ LEVEL_NOTE = (
     'limit is modelled as explicit fuel; wall-time bounds are measured, not proved. Ranges are assumed to have at '
     'most MAX_EMPTY=100 cells in cycle_complete (larger ranges are not walked completely by RangeNode.eval).')
 DESIGN_REF = '§4 C06'
+
+# theorems of the integrated pipeline model (Props/X01.lean) that carry this property's theorems to formula TEXTS in a
+# compiled workbook; re-built and audited with this check (harness/common.prepare: soft obligations)
+TRANSPORT = ('XlVerif.Props.X01', ['X01_terminates', 'X01_cycle_sound'])
 TRUSTED = [
     'Lean 4.33 kernel; axioms propext, Classical.choice, Quot.sound only',
     'hand-written model lean/XlVerif/Model/Evaluator.lean of evaluator.py / RangeNode.eval, tied to the code by '
